@@ -222,3 +222,37 @@ Definition process_at_as {E} (v : validator E) (from_internal : bool) (b : list 
   | Err e => (b1, Failed e)
   | Panic _ => (b1, Panicked)
   end.
+
+(** * OneHopPathView::set_second_hop / OneHopPath::set_second_hop (as repaired for C12: the
+      model copies ExpTime from the first hop like the view and the reference router do, the
+      view clears the flags of the second hop like the model does) *)
+Definition hf_set_cons_ingress (f : list N) (v : N) : list N := set_range f 2 (be_bytes 2 v).
+Definition hf_set_cons_egress (f : list N) (v : N) : list N := set_range f 4 (be_bytes 2 v).
+Definition hf_set_exp (f : list N) (v : N) : list N := set_byte f 1 (v mod 256).
+Definition hf_set_mac (f : list N) (mac : list N) : list N := set_range f 6 (firstn 6 mac).
+
+Section SecondHop.
+Variable cmac : list N -> list N -> list N.
+
+Definition oh_view_set_second_hop (b : list N) (ingress_interface : N) (key : list N) (advanced : bool) : list N :=
+  let info := oh_info b in
+  let beta := if advanced then if_segid info else mac_beta_step (if_segid info) (hf_mac (oh_hop1 b)) in
+  let timestamp := if_ts info in
+  let hop1 := oh_hop1 b in
+  let hop2 := oh_hop2 b in
+  let hop2 := hf_set_flags hop2 0 in
+  let hop2 := hf_set_cons_ingress hop2 ingress_interface in
+  let hop2 := hf_set_cons_ingress hop2 ingress_interface in
+  let hop2 := hf_set_cons_egress hop2 0 in
+  let hop2 := hf_set_cons_ingress hop2 ingress_interface in
+  let hop2 := hf_set_exp hop2 (hf_exp hop1) in
+  let mac := calculate_hop_mac cmac beta timestamp (hf_exp hop2) (hf_cons_ingress hop2) (hf_cons_egress hop2) key in
+  set_range b 20 (hf_set_mac hop2 mac).
+
+Definition oh_model_set_second_hop (p : onehop) (ingress_interface : N) (key : list N) (advanced : bool) : onehop :=
+  let beta := if advanced then i_segid (o_info p) else mac_beta_step (i_segid (o_info p)) (h_mac (o_hop1 p)) in
+  let exp := h_exp (o_hop1 p) in
+  mkOne (o_info p) (o_hop1 p)
+        (mkHop 0 exp ingress_interface 0
+               (calculate_hop_mac cmac beta (i_ts (o_info p)) exp ingress_interface 0 key)).
+End SecondHop.
